@@ -362,7 +362,7 @@ def clause_d(repo, chk):
 # --------------------------------------------------------------------------- (e)
 def clause_e(repo, chk):
     """bulk re-randomisation never touches a fixed parameter"""
-    chk.rule("E-fixed", "in VarsManager.refresh_vars every assignment to self.variables[name] is guarded by `name in self.trainable_vars` (if-test, continue-guard, or a loop over the trainable names): a fixed parameter changes only when explicitly assigned")
+    chk.rule("E-fixed", "VarsManager.refresh_vars interpreted on a small manager: only names in trainable_vars are assigned - also when the tensor of a fixed name carries trainable=True (a fixed parameter tied to a free head shares the head's tensor): a fixed parameter changes only when explicitly assigned")
     fn = repo.fn("%s::VarsManager.refresh_vars" % VAR)
     # interpreted on a small manager: trainable and fixed variables in every group the function treats (complex pair in
     # polar and Cartesian form, initial value as (mu, sigma) / as a number / absent, bounded on either side) - the set of
@@ -390,7 +390,17 @@ def clause_e(repo, chk):
             return sp.Symbol("rnd%d" % len(assigned), positive=True)
         return NotImplemented
 
-    tr = Translator(repo, hooks={"sym_method": sym_method, "numeric_call": numeric, "allow_attr_store": True}, where_policy=lambda cond, t: True, max_depth=3)
+    # the `trainable` flag of the underlying tensor: set for the trainable names, and also for a fixed name that is tied
+    # to a free head (the tie shares one tensor, whose flag is the head's) - Ai and Br here.  Only trainable_vars says
+    # which names the manager may change
+    flag_true = set(trainable) | {"Ai", "Br"}
+
+    def attribute(tr_, obj, name, node):
+        if obj in back and name in ("trainable", "_trainable"):
+            return back[obj] in flag_true
+        raise Unmodelled("attribute %s of %r" % (name, obj))
+
+    tr = Translator(repo, hooks={"sym_method": sym_method, "numeric_call": numeric, "allow_attr_store": True, "attribute": attribute}, where_policy=lambda cond, t: True, max_depth=3)
     vm = repo.cls("%s::VarsManager" % VAR)
     so = SelfObj(vm, {"variables": dict(var), "trainable_vars": list(trainable), "complex_vars": {"A": True, "B": False, "C": True, "D": False}, "bnd_dic": {}, "init_val": {}, "dtype": "float64"})
     try:
@@ -593,6 +603,38 @@ def clause_h(repo, chk):
         chk.violation("H-tiefix", fn.key, "case:" + "+".join(names), "set_same(%s) on ties [a, b] (free), [e, f] (fixed), fixed c, free d, g: %s" % (list(names), why), file=VAR, line=fn.lineno)
 
 
+def clause_getmask(repo, chk):
+    """VarsManager.get returns what is stored, whatever mask is in force"""
+    import sympy as sp
+
+    from ..sym import SelfObj, Translator, Unmodelled
+    vmc = repo.cls("%s::VarsManager" % VAR)
+    bcls = repo.cls("%s::Bound" % VAR)
+    fn = vmc.methods.get("get")
+    if fn is None:
+        raise AnalysisError("anchor vanished: VarsManager.get")
+    chk.rule("E-getmask", "VarsManager.get(name, val_in_fit) interpreted on a manager where a temporary mask (mask_params) overrides the variable: the stored value comes back (the fit coordinate of the stored value if the variable carries a range and val_in_fit is set), never the mask - a save / restore through get and set (temp_params, get_all_val / set_all) must not freeze the mask into the parameter")
+    a, b = sp.symbols("theta_a theta_b", real=True)
+    mask = sp.Symbol("MASK", real=True)
+    fit = sp.Function("fit_coordinate")
+    hooks = {"allow_attr_store": True, "numeric_call_first": lambda tr_, d_, args, kwargs, n: (args[0] if d_.split(".")[-1] in ("stop_gradient", "cast") and args else NotImplemented)}
+    if "get_y2x" in bcls.methods:
+        hooks[bcls.methods["get_y2x"].key] = lambda tr_, args, kwargs, node: fit(sp.sympify(args[-1]))
+    for bounded in (False, True):
+        for vif in (True, False):
+            vm = SelfObj(vmc, {"variables": {"a": a, "b": b}, "trainable_vars": ["a", "b"], "bnd_dic": ({"a": SelfObj(bcls, {})} if bounded else {}), "pre_trans": {}, "mask_vars": {"a": mask}, "complex_vars": {}, "same_list": []})
+            tr = Translator(repo, hooks=hooks, max_depth=3)
+            try:
+                out = tr.call_fn(fn, ["a"], {"val_in_fit": vif}, self_obj=vm)
+            except Unmodelled as e:
+                raise AnalysisError("VarsManager.get cannot be interpreted: %s" % e)
+            want = fit(a) if (bounded and vif) else a
+            ok = sp.simplify(sp.sympify(out) - want) == 0
+            chk.oblige("E-getmask", "get('a', val_in_fit=%s) with a masked%s == %s" % (vif, " and bounded" if bounded else "", want), ok)
+            if not ok:
+                chk.violation("E-getmask", fn.key, "mask:%s:%s" % (bounded, vif), "get('a', val_in_fit=%s) returns %s while a mask is in force (stored value theta_a%s): code that saves parameters with get and writes them back stores the mask permanently" % (vif, out, ", range registered" if bounded else ""), file=VAR, line=fn.lineno)
+
+
 def run(repo, chk, tier):
     from ..cacheown import check_persistent_state
 
@@ -607,4 +649,5 @@ def run(repo, chk, tier):
     clause_g(repo, chk)
     clause_setbound(repo, chk)
     clause_pairs(repo, chk)
+    clause_getmask(repo, chk)
     clause_h(repo, chk)
